@@ -220,6 +220,12 @@ class Report:
         """Merge a worker result dict: {evals, nontrivial:[hashes], n_nontrivial, samples, outcomes, violations}."""
         if res is None:
             return
+        if isinstance(res, Hang):
+            self.violations.append(Violation(self.prop, "harness|no-result:" + res.why.split(":")[0].split("(")[0].strip() + "|",
+                                             "work item produced no result: %s; item=%s" % (res.why, repr(jsonable(res.item))[:1500]),
+                                             {"work_item": jsonable(res.item), "why": res.why}))
+            self.cap("a work item did not complete: " + res.why[:80])
+            return
         self.evaluations += int(res.get("evals", 0))
         for h in res.get("nontrivial", ()):
             self.nontrivial.add(h)
@@ -317,30 +323,103 @@ class Report:
 
 
 # ---------------------------------------------------------------------------------------------
-# parallel map (fork; the parent has already imported wavespectra so children share it)
+# parallel map (fork; the parent has already imported wavespectra so children share it).
+# Workers are watched: an item that hangs (e.g. an endless loop inside the C routine) or kills its worker
+# (segfault, abort) is reported as a Hang result instead of blocking the run.
 # ---------------------------------------------------------------------------------------------
-_FUNC = None
+class Hang:
+    def __init__(self, item, why):
+        self.item, self.why = item, why
 
 
-def _call(arg):
-    return _FUNC(arg)
+def _worker(func, items, taskq, resq):
+    while True:
+        i = taskq.get()
+        if i is None:
+            return
+        resq.put(("start", i, os.getpid()))
+        try:
+            r = func(items[i])
+            resq.put(("done", i, r))
+        except BaseException as e:  # noqa
+            import traceback
+
+            resq.put(("error", i, "%s: %s\n%s" % (type(e).__name__, e, traceback.format_exc()[-1500:])))
 
 
-def pmap(func, items, workers=None, chunksize=1):
-    """Ordered parallel map over a list of work items using fork. func must be a module-level callable
-    or closure (it is inherited by fork, never pickled). Results must be picklable."""
-    global _FUNC
+def pmap(func, items, workers=None, chunksize=1, timeout=None):
+    """Parallel map over a list of work items using fork; yields results in completion order of index
+    (ordered). func is inherited by fork, never pickled; results must be picklable. An item whose worker
+    exceeds `timeout` seconds or dies yields a Hang."""
     items = list(items)
+    timeout = timeout or float(os.environ.get("VERIF_ITEM_TIMEOUT", "900"))
     workers = min(workers or NCPU, max(1, len(items)))
-    if workers <= 1 or os.environ.get("VERIF_SERIAL"):
+    if os.environ.get("VERIF_SERIAL"):
         for it in items:
             yield func(it)
         return
-    _FUNC = func
     ctx = mp.get_context("fork")
-    with ctx.Pool(workers) as pool:
-        for r in pool.imap(_call, items, chunksize):
-            yield r
+    taskq, resq = ctx.Queue(), ctx.Queue()
+    for i in range(len(items)):
+        taskq.put(i)
+    procs = {}
+
+    def spawn():
+        p = ctx.Process(target=_worker, args=(func, items, taskq, resq), daemon=True)
+        p.start()
+        procs[p.pid] = p
+
+    for _ in range(workers):
+        spawn()
+    running = {}  # idx -> (pid, t0)
+    results = {}
+    nxt = 0
+    ndone = 0
+    import queue as _q
+
+    try:
+        while ndone < len(items):
+            try:
+                kind, i, payload = resq.get(timeout=1.0)
+            except _q.Empty:
+                kind = None
+            now = time.time()
+            if kind == "start":
+                running[i] = (payload, now)
+            elif kind == "done":
+                running.pop(i, None)
+                results[i] = payload
+                ndone += 1
+            elif kind == "error":
+                running.pop(i, None)
+                results[i] = Hang(items[i], "worker raised: " + payload)
+                ndone += 1
+            # watchdog: timeouts and dead workers
+            for i, (pid, t0) in list(running.items()):
+                p = procs.get(pid)
+                dead = p is not None and not p.is_alive()
+                if dead or now - t0 > timeout:
+                    if p is not None and p.is_alive():
+                        p.kill()
+                    if p is not None:
+                        p.join(5)
+                        procs.pop(pid, None)
+                    running.pop(i, None)
+                    why = ("worker process died (exit code %s)" % (p.exitcode if p else "?")) if dead else ("no result after %.0f s (hang)" % timeout)
+                    results[i] = Hang(items[i], why)
+                    ndone += 1
+                    if ndone + len(running) < len(items):
+                        spawn()
+            while nxt in results:
+                yield results.pop(nxt)
+                nxt += 1
+    finally:
+        for _ in procs:
+            taskq.put(None)
+        for p in procs.values():
+            p.join(2)
+            if p.is_alive():
+                p.kill()
 
 
 def hkey(*parts) -> str:
